@@ -44,6 +44,28 @@ fn check(x: &[u8], y: &[u8], ms: i32, mm: i32, go: i32, ge: i32, k: usize, w: us
                 }
             }
         }
+        // the remaining ways of supplying the backbone: explicit matches, mismatch-expanded matches (with / without the LCSk++ union), prehash
+        {
+            use bio::alignment::sparse::hash_kmers;
+            let ms_all = find_kmer_matches(&x, &y, k);
+            let opt = reference(&x, &y, msl, mml, gol, gel, 0);
+            let h = hash_kmers(&y, k);
+            for variant in 0..5u8 {
+                let mut b = banded::Aligner::new(go, ge, score, k, w);
+                let a = match variant {
+                    0 => b.custom_with_matches(&x, &y, &ms_all),
+                    1 => b.custom_with_expanded_matches(&x, &y, ms_all.clone(), Some(1), false),
+                    2 => b.custom_with_expanded_matches(&x, &y, ms_all.clone(), Some(2), true),
+                    3 => b.custom_with_expanded_matches(&x, &y, ms_all.clone(), None, true),
+                    _ => b.custom_with_prehash(&x, &y, &h),
+                };
+                if a.score as i64 > opt { return Err(format!("entry point {}: banded score {} exceeds the unbanded optimum {}", variant, a.score, opt)); }
+                if no_kmer && a.score as i64 != opt { return Err(format!("entry point {}: no k-mer match but score {} != optimum {}", variant, a.score, opt)); }
+                let mn = MIN_SCORE as i64;
+                let got = rescore(&a, &x, &y, msl, mml, gol, gel, [mn, mn, mn, mn]).map_err(|e| format!("entry point {}: {}", variant, e))?;
+                if got != a.score as i64 { return Err(format!("entry point {}: path {:?} re-scores to {} but the reported score is {}", variant, a.operations, got, a.score)); }
+            }
+        }
         // custom() with four INDEPENDENT clip penalties (each one forbidden, free or a small penalty): the path re-scores to the reported score,
         // the score never exceeds the unbanded aligner's, and equals it when the band is the whole matrix
         {
